@@ -275,6 +275,7 @@ class Check:
         self.tier = tier
         self.repo = repo
         self.obs = []  # dicts
+        self.shape_mismatch = []
         self.rules = {}  # rule id -> description
         self.assumptions = []
         self.extra = {}
@@ -283,10 +284,18 @@ class Check:
     def rule(self, rid, desc):
         self.rules[rid] = desc
 
-    def ob(self, rule, rel, qual, construct, ok, detail='', trivial=False):
+    def ob(self, rule, rel, qual, construct, ok, detail='', trivial=False, shape=False):
+        """Record one obligation.  ``shape=True`` marks an obligation that is
+        decided by matching the *text shape* of a small function: if it does not
+        match, the code was rewritten and the rule cannot tell whether the
+        behaviour changed - that is reported as an analysis error (exit 2), never
+        as a violation."""
         if rule not in self.rules:
             raise AnalysisError(f'internal: rule {rule} not declared')
         construct = construct if isinstance(construct, str) else text(construct)
+        if shape and not ok:
+            self.shape_mismatch.append(f'{rule} {rel}:{qual}: {construct}' + (f' ({detail})' if detail else ''))
+            return ok
         self.obs.append(
             {
                 'rule': rule,
@@ -411,6 +420,7 @@ def finish(chk: Check, seed=0):
             'tree_digest': chk.repo.digest(),
             'known_findings_matched': [o['key'] for o in matched],
             'new_violations': [o['key'] for o in new],
+            'shape_mismatches': list(chk.shape_mismatch),
             **chk.extra,
         },
         'assumptions': chk.assumptions
@@ -425,4 +435,11 @@ def finish(chk: Check, seed=0):
         f'{chk.pid} [{chk.tier}] obligations={n_ob} discharged={n_ok} '
         f'known={len(matched)} new={len(new)} wall={wall:.2f}s'
     )
-    return 1 if new else 0
+    if new:
+        return 1
+    if chk.shape_mismatch:
+        for sm in chk.shape_mismatch:
+            print(f'SHAPE-MISMATCH {sm}')
+        print(f'ANALYSIS-ERROR property={chk.pid}: {len(chk.shape_mismatch)} function(s) no longer have the shape a rule reads; the rule cannot decide them')
+        return 2
+    return 0
